@@ -287,6 +287,18 @@ pub fn preset_graph(rng : &mut Rng, shape : &str) -> Graph
                 rules.push(r);
                 rules.push(make_rule(rng, vec![n[count].clone()], vec![n[0].clone()], &mut salt));
                 rules.push(make_rule(rng, vec![n[count + 1].clone()], vec![n[1].clone()], &mut salt));
+                if rng.chance(2, 3)
+                {
+                    // and a single copy of a third leaf, so that bytes can move between that rule's target and these
+                    let extra = names(rng, 2 * count + 2);
+                    let third = leafs(rng, count + 1);
+                    if let (Some(t), Some(leaf)) = (extra.iter().find(|x| !n.contains(x)), third.iter().find(|x| !l.contains(x)))
+                    {
+                        let mut u = make_rule(rng, vec![t.clone()], vec![leaf.clone()], &mut salt);
+                        u.outs[0].raw = true; u.outs[0].mask = 1;
+                        rules.push(u);
+                    }
+                }
                 return graph_from(shape, rules, rng);
             }
             for i in 0..count
